@@ -247,7 +247,9 @@ def owners(div):
     fn = div.get("fn", "")
     obs = div.get("obs") if isinstance(div.get("obs"), dict) else {}
     if kind == "threads":
-        return {"C20"}
+        # real threads: C20 always; cross-talk or a race inside poll / drain also breaks what C09 / C16 promise for each caller
+        txt = " ".join(obs.get("fails") or []) + " " + (obs.get("tail") or "")
+        return {"C20"} | ({"C09"} if ("poll-" in txt or "reproc_poll" in txt) else set()) | ({"C16"} if (" drain " in txt or "reproc_drain" in txt) else set())
     if kind == "optprod":
         return {"C13"}
     if kind == "rejected":
@@ -1263,7 +1265,7 @@ PROPS = {
     "C10": {"families": ["wiring", "real"], "title": "each standard stream is connected exactly where the options say"},
     "C11": {"families": ["wiring", "env2", "conc", "real"], "title": "nothing else is inherited"},
     "C13": {"families": ["options", "optprod"], "title": "options rejected up front, accepted as documented"},
-    "C04": {"families": ["faults", "env", "wiring", "restart"], "title": "start is all-or-nothing and reports the real cause"},
+    "C04": {"families": ["faults", "env", "env2", "wiring", "restart"], "title": "start is all-or-nothing and reports the real cause"},
     "C05": {"families": ["faults", "anyfault", "wiring", "life"], "title": "no leak, no foreign or double close"},
     "C18": {"families": ["wincmd"], "title": "Windows command line and environment block",
             "level_text": "The real Windows string code (process.windows.c, utf.windows.c, compiled unchanged against a stub windows.h, under ASan+UBSan) is run on an exhaustive bounded enumeration of argument vectors and environments; every record of what the stubbed CreateProcessW received is validated by TLC against spec/WinCmdLine.tla (Split(cmdline) = argv by the documented parsing rules, exact buffer size, environment block layout).",
@@ -1281,7 +1283,7 @@ PROPS = {
     "C16": {"families": ["drain", "run", "cxx", "free"], "title": "drain and run"},
     "C17": {"families": ["stream", "free"], "title": "nonblocking never blocks; blocking waits only for the child"},
     "C08": {"families": ["poll", "restart", "free"], "title": "deadlines and timeouts bound every wait and poll"},
-    "C09": {"families": ["poll", "stream", "free"], "title": "poll reports exactly the true events"},
+    "C09": {"families": ["poll", "stream", "threads", "free"], "title": "poll reports exactly the true events"},
 }
 
 NOT_APPLICABLE = {}
